@@ -13,6 +13,7 @@
 #include <cstdint>
 #include <cstring>
 #include <limits>
+#include <memory>
 #include <type_traits>
 
 #include <dune/common/exceptions.hh>
@@ -161,170 +162,63 @@ template <class T> bool validUn(const std::string& op, T a) {
 }
 
 // ------------------------------------------------------------------------------------------------
-// operators of LoopSIMD
+// operators of LoopSIMD.  Per vector type V only thin kernels are instantiated (load lanes, apply the
+// operator of the code under test, store lanes); parsing, the scalar reference and the comparison are
+// instantiated once per scalar type.
 // ------------------------------------------------------------------------------------------------
-// binary expression  a OP b  in the three forms vector/vector, vector/scalar, scalar/vector
-// LOGIC marks && and ||: loop.hh has no scalar-mask/vector form of them for nested vectors (it does not compile)
-template <class V, int CLS, class F>  // CLS 0: arithmetic/comparison, 1: && ||, 2: shifts (no scalar OP vector form)
-Result binForm(const std::string& form, const std::string& op, const std::string& ta, const std::string& tb, F f) {
-  using T = ScalarOf<V>;
-  constexpr std::size_t n = RawT<V>::n;
-  Result res;
-  if constexpr (!std::is_invocable_v<F, const T&, const T&>) return noSuchOp();
-  else {
-    using RS0 = std::invoke_result_t<F, const T&, const T&>;
-    if (form == "vv") {
-      {
-        const V a = parseVec<V>(ta), b = parseVec<V>(tb);
-        for (std::size_t k = 0; k < n; ++k) if (!validBin<T>(op, RawT<V>::at(a, k), RawT<V>::at(b, k))) return invalidInput();
-        const V a0 = a, b0 = b;
-        auto r = f(a, b);
-        using RV = std::decay_t<decltype(r)>;
-        using RS = ScalarOf<RV>;
-        static_assert(RawT<RV>::n == n, "result has another number of lanes");
-        res.impl = showVec(r);
-        for (std::size_t k = 0; k < n; ++k) {
-          RS e = static_cast<RS>(static_cast<RS0>(f(RawT<V>::at(a0, k), RawT<V>::at(b0, k))));
-          if (!Cod<RS>::same(RawT<RV>::at(r, k), e)) { res.oracle = "FAIL lane " + std::to_string(k) + " is " + Cod<RS>::show(RawT<RV>::at(r, k)) + ", scalar operation gives " + Cod<RS>::show(e); break; }
-        }
-        if (!sameVec(a, a0) || !sameVec(b, b0)) res.oracle = "FAIL operand modified";
-        return res;
-      }
-    } else if (form == "vs") {
-      {
-        const V a = parseVec<V>(ta); const T s = Cod<T>::parse(tb);
-        for (std::size_t k = 0; k < n; ++k) if (!validBin<T>(op, RawT<V>::at(a, k), s)) return invalidInput();
-        auto r = f(a, s);
-        using RV = std::decay_t<decltype(r)>;
-        using RS = ScalarOf<RV>;
-        res.impl = showVec(r);
-        for (std::size_t k = 0; k < n; ++k) {
-          RS e = static_cast<RS>(static_cast<RS0>(f(RawT<V>::at(a, k), s)));
-          if (!Cod<RS>::same(RawT<RV>::at(r, k), e)) { res.oracle = "FAIL lane " + std::to_string(k) + " is " + Cod<RS>::show(RawT<RV>::at(r, k)) + ", scalar operation gives " + Cod<RS>::show(e); break; }
-        }
-        return res;
-      }
-    } else if (form == "sv") {
-      if constexpr ((CLS == 1 && IsNested<V>::value) || CLS == 2) return noSuchOp();
-      else {
-        const T s = Cod<T>::parse(ta); const V b = parseVec<V>(tb);
-        for (std::size_t k = 0; k < n; ++k) if (!validBin<T>(op, s, RawT<V>::at(b, k))) return invalidInput();
-        auto r = f(s, b);
-        using RV = std::decay_t<decltype(r)>;
-        using RS = ScalarOf<RV>;
-        res.impl = showVec(r);
-        for (std::size_t k = 0; k < n; ++k) {
-          RS e = static_cast<RS>(static_cast<RS0>(f(s, RawT<V>::at(b, k))));
-          if (!Cod<RS>::same(RawT<RV>::at(r, k), e)) { res.oracle = "FAIL lane " + std::to_string(k) + " is " + Cod<RS>::show(RawT<RV>::at(r, k)) + ", scalar operation gives " + Cod<RS>::show(e); break; }
-        }
-        return res;
-      }
-    }
-    res.impl = "bad-op"; res.oracle = "ok trivial";
-    return res;
-  }
-}
+enum OpCode { ADD, SUB, MUL, DIV, MOD, BAND, BOR, BXOR, SHL, SHR, LT, GT, LE, GE, EQ, NE, LAND, LOR, NOPS };
+static const char* const opNames[NOPS] = {"add", "sub", "mul", "div", "mod", "band", "bor", "bxor", "shl", "shr",
+                                          "lt", "gt", "le", "ge", "eq", "ne", "land", "lor"};
+static int opCode(const std::string& s) { for (int i = 0; i < NOPS; ++i) if (s == opNames[i]) return i; return -1; }
+static bool isMaskOp(int op) { return op >= LT; }
+enum UnCode { POS, NEG, BNOT, LNOT, PREINC, PREDEC, POSTINC, POSTDEC, NUNS };
+static const char* const unNames[NUNS] = {"pos", "neg", "bnot", "lnot", "preinc", "predec", "postinc", "postdec"};
+static int unCode(const std::string& s) { for (int i = 0; i < NUNS; ++i) if (s == unNames[i]) return i; return -1; }
 
-// compound assignment  a OP= b  (forms vv, vs); observes the object after the operation and the returned value
-template <class V, class F>
-Result asgForm(const std::string& form, const std::string& op, const std::string& ta, const std::string& tb, F f) {
-  using T = ScalarOf<V>;
-  constexpr std::size_t n = RawT<V>::n;
-  Result res;
-  if constexpr (!std::is_invocable_v<F, T&, const T&>) return noSuchOp();
-  else {
-    V a = parseVec<V>(ta);
-    const V a0 = a;
-    V ret;
-    V bvec; T s{};
-    if (form == "vv") {
-      {
-        bvec = parseVec<V>(tb);
-        for (std::size_t k = 0; k < n; ++k) if (!validBin<T>(op, RawT<V>::at(a, k), RawT<V>::at(bvec, k))) return invalidInput();
-        ret = f(a, static_cast<const V&>(bvec));
-      }
-    } else if (form == "vs") {
-      {
-        s = Cod<T>::parse(tb);
-        for (std::size_t k = 0; k < n; ++k) if (!validBin<T>(op, RawT<V>::at(a, k), s)) return invalidInput();
-        ret = f(a, static_cast<const T&>(s));
-      }
-    } else { res.impl = "bad-op"; res.oracle = "ok trivial"; return res; }
-    res.impl = showVec(a);
-    for (std::size_t k = 0; k < n; ++k) {
-      T e = RawT<V>::at(a0, k);
-      f(e, form == "vv" ? RawT<V>::at(bvec, k) : s);
-      if (!Cod<T>::same(RawT<V>::at(a, k), e)) { res.oracle = "FAIL lane " + std::to_string(k) + " is " + Cod<T>::show(RawT<V>::at(a, k)) + ", scalar operation gives " + Cod<T>::show(e); break; }
-    }
-    if (res.oracle == "ok" && !sameVec(ret, a)) res.oracle = "FAIL returned value differs from the assigned object";
-    return res;
-  }
+// x OP y for operator code `op`; ST is the scalar type deciding whether the expression exists at all
+// (Note 4 of the specification: what is invalid for the scalar is not required of the vector)
+#define DV_C(code, OP) \
+  case code: if constexpr (requires(const ST& p, const ST& q) { p OP q; }) { out = static_cast<R>(x OP y); return true; } else return false;
+template <class ST, class R, class X, class Y> bool applyArithNoShift(int op, const X& x, const Y& y, R& out) {
+  switch (op) { DV_C(ADD, +) DV_C(SUB, -) DV_C(MUL, *) DV_C(DIV, /) DV_C(MOD, %) DV_C(BAND, &) DV_C(BOR, |) DV_C(BXOR, ^) }
+  return false;
 }
-
-// unary expression
-template <class V, class F>
-Result unForm(const std::string& op, const std::string& ta, F f) {
-  using T = ScalarOf<V>;
-  constexpr std::size_t n = RawT<V>::n;
-  Result res;
-  if constexpr (!std::is_invocable_v<F, const T&>) return noSuchOp();
-  else {
-    using RS0 = std::invoke_result_t<F, const T&>;
-    const V a = parseVec<V>(ta);
-    for (std::size_t k = 0; k < n; ++k) if (!validUn<T>(op, RawT<V>::at(a, k))) return invalidInput();
-    auto r = f(a);
-    using RV = std::decay_t<decltype(r)>;
-    using RS = ScalarOf<RV>;
-    static_assert(RawT<RV>::n == n, "result has another number of lanes");
-    res.impl = showVec(r);
-    for (std::size_t k = 0; k < n; ++k) {
-      RS e = static_cast<RS>(static_cast<RS0>(f(RawT<V>::at(a, k))));
-      if (!Cod<RS>::same(RawT<RV>::at(r, k), e)) { res.oracle = "FAIL lane " + std::to_string(k) + " is " + Cod<RS>::show(RawT<RV>::at(r, k)) + ", scalar operation gives " + Cod<RS>::show(e); break; }
-    }
-    return res;
-  }
+template <class ST, class R, class X, class Y> bool applyShift(int op, const X& x, const Y& y, R& out) {
+  switch (op) { DV_C(SHL, <<) DV_C(SHR, >>) }
+  return false;
 }
-
-// ++/-- (prefix and postfix): observes returned value and object
-template <class V, class F>
-Result incForm(const std::string& op, const std::string& ta, F f) {
-  using T = ScalarOf<V>;
-  constexpr std::size_t n = RawT<V>::n;
-  Result res;
-  if constexpr (!std::is_invocable_v<F, T&>) return noSuchOp();
-  else {
-    V a = parseVec<V>(ta);
-    const V a0 = a;
-    for (std::size_t k = 0; k < n; ++k) if (!validUn<T>(op, RawT<V>::at(a, k))) return invalidInput();
-    V r = f(a);
-    res.impl = showVec(r) + "|" + showVec(a);
-    for (std::size_t k = 0; k < n; ++k) {
-      T x = RawT<V>::at(a0, k);
-      T e = f(x);
-      if (!Cod<T>::same(RawT<V>::at(r, k), e) || !Cod<T>::same(RawT<V>::at(a, k), x)) { res.oracle = "FAIL lane " + std::to_string(k) + ": value/object " + Cod<T>::show(RawT<V>::at(r, k)) + "/" + Cod<T>::show(RawT<V>::at(a, k)) + ", scalar gives " + Cod<T>::show(e) + "/" + Cod<T>::show(x); break; }
-    }
-    return res;
-  }
+template <class ST, class R, class X, class Y> bool applyCompare(int op, const X& x, const Y& y, R& out) {
+  switch (op) { DV_C(LT, <) DV_C(GT, >) DV_C(LE, <=) DV_C(GE, >=) DV_C(EQ, ==) DV_C(NE, !=) }
+  return false;
 }
-
-// cmath functions: vector call through ADL versus std:: on every lane
-template <class V, class FV, class FS>
-Result mathForm(const std::string& ta, FV fv, FS fs) {
-  using T = ScalarOf<V>;
-  constexpr std::size_t n = RawT<V>::n;
-  Result res;
-  const V a = parseVec<V>(ta);
-  auto r = fv(a);
-  using RV = std::decay_t<decltype(r)>;
-  using RS = ScalarOf<RV>;
-  static_assert(RawT<RV>::n == n, "result has another number of lanes");
-  res.impl = showVec(r);
-  for (std::size_t k = 0; k < n; ++k) {
-    RS e = static_cast<RS>(fs(RawT<V>::at(a, k)));
-    if (!Cod<RS>::same(RawT<RV>::at(r, k), e)) { res.oracle = "FAIL lane " + std::to_string(k) + " is " + Cod<RS>::show(RawT<RV>::at(r, k)) + ", scalar function gives " + Cod<RS>::show(e); break; }
+template <class ST, class R, class X, class Y> bool applyLogic(int op, const X& x, const Y& y, R& out) {
+  switch (op) { DV_C(LAND, &&) DV_C(LOR, ||) }
+  return false;
+}
+#undef DV_C
+#define DV_A(code, OP) \
+  case code: if constexpr (requires(ST& p, const ST& q) { p OP q; }) { ret = (x OP y); return true; } else return false;
+template <class ST, class X, class Y> bool applyAssign(int op, X& x, const Y& y, X& ret) {
+  switch (op) { DV_A(ADD, +=) DV_A(SUB, -=) DV_A(MUL, *=) DV_A(DIV, /=) DV_A(MOD, %=) DV_A(BAND, &=) DV_A(BOR, |=) DV_A(BXOR, ^=) DV_A(SHL, <<=) DV_A(SHR, >>=) }
+  return false;
+}
+#undef DV_A
+template <class ST, class R, class X> bool applyUnary(int op, const X& x, R& out) {
+  switch (op) {
+    case POS: if constexpr (requires(const ST& p) { +p; }) { out = static_cast<R>(+x); return true; } else return false;
+    case NEG: if constexpr (requires(const ST& p) { -p; }) { out = static_cast<R>(-x); return true; } else return false;
+    case BNOT: if constexpr (requires(const ST& p) { ~p; }) { out = static_cast<R>(~x); return true; } else return false;
   }
-  (void)sizeof(T);
-  return res;
+  return false;
+}
+template <class ST, class X> bool applyInc(int op, X& x, X& ret) {
+  switch (op) {
+    case PREINC: if constexpr (requires(ST& p) { ++p; }) { ret = ++x; return true; } else return false;
+    case PREDEC: if constexpr (requires(ST& p) { --p; }) { ret = --x; return true; } else return false;
+    case POSTINC: if constexpr (requires(ST& p) { p++; }) { ret = x++; return true; } else return false;
+    case POSTDEC: if constexpr (requires(ST& p) { p--; }) { ret = x--; return true; } else return false;
+  }
+  return false;
 }
 
 // functions returning the vector's own type / another scalar type (the latter do not compile for nested vectors)
@@ -333,23 +227,308 @@ Result mathForm(const std::string& ta, FV fv, FS fs) {
   X(log10) X(exp2) X(expm1) X(log1p) X(log2) X(logb) X(sqrt) X(cbrt) X(erf) X(erfc) X(tgamma) X(lgamma) \
   X(ceil) X(floor) X(trunc) X(round) X(rint) X(nearbyint) X(fabs) X(abs) X(real) X(imag)
 #define DV_MATHFNS_RET(X) X(ilogb) X(lround) X(llround) X(lrint) X(llrint)
-#define DV_MATHFNS(X) DV_MATHFNS_SAME(X) DV_MATHFNS_RET(X)
 
-static const std::vector<std::string>& mathNames() {
+static const std::vector<std::string>& mathSameNames() {
   static const std::vector<std::string> v = {
 #define X(fn) #fn,
-      DV_MATHFNS(X)
+      DV_MATHFNS_SAME(X)
 #undef X
   };
   return v;
 }
+static const std::vector<std::string>& mathRetNames() {
+  static const std::vector<std::string> v = {
+#define X(fn) #fn,
+      DV_MATHFNS_RET(X)
+#undef X
+  };
+  return v;
+}
+static int indexOf(const std::vector<std::string>& v, const std::string& s) {
+  for (std::size_t i = 0; i < v.size(); ++i) if (v[i] == s) return (int)i;
+  return -1;
+}
+// the scalar function (std::) by index: this is the reference the vector version is compared with
+template <class T> T scalarMathSame(int fn, T x) {
+  int i = 0;
+#define X(f) if (fn == i++) return static_cast<T>(std::f(x));
+  DV_MATHFNS_SAME(X)
+#undef X
+  return x;
+}
+template <class T> long long scalarMathRet(int fn, T x) {
+  int i = 0;
+#define X(f) if (fn == i++) return static_cast<long long>(std::f(x));
+  DV_MATHFNS_RET(X)
+#undef X
+  return 0;
+}
+
+// function pointers of the kernels of one vector type
+template <class T> struct KernTab {
+  std::size_t n;
+  bool nested;
+  bool (*arith)(int form, int op, const T* a, const T* b, T* out);
+  bool (*mask)(int form, int op, const T* a, const T* b, bool* out);
+  bool (*asg)(int form, int op, T* a, const T* b, T* ret);
+  bool (*un)(int op, const T* a, T* out);
+  void (*lnot)(const T* a, bool* out);
+  bool (*inc)(int op, T* a, T* ret);
+  void (*mathSame)(int fn, const T* a, T* out);
+  bool (*mathRet)(int fn, const T* a, long long* out);
+};
+
+template <class V> struct Kern {
+  using T = ScalarOf<V>;
+  using M = Simd::Mask<V>;
+  static constexpr std::size_t n = RawT<V>::n;
+  static V ld(const T* p) { V v; for (std::size_t k = 0; k < n; ++k) RawT<V>::at(v, k) = p[k]; return v; }
+  template <class W, class U> static void st(const W& v, U* p) {
+    static_assert(RawT<W>::n == n, "result has another number of lanes");
+    for (std::size_t k = 0; k < n; ++k) p[k] = static_cast<U>(RawT<W>::at(v, k));
+  }
+  // form 0: vector OP vector, 1: vector OP scalar (b[0]), 2: scalar (a[0]) OP vector
+  static bool arith(int form, int op, const T* a, const T* b, T* out) {
+    V r; bool ok = false;
+    if (form == 0) { const V x = ld(a), y = ld(b); ok = op < SHL ? applyArithNoShift<T, V>(op, x, y, r) : applyShift<T, V>(op, x, y, r); }
+    else if (form == 1) { const V x = ld(a); const T s = b[0]; ok = op < SHL ? applyArithNoShift<T, V>(op, x, s, r) : applyShift<T, V>(op, x, s, r); }
+    else if (op < SHL) { const T s = a[0]; const V y = ld(b); ok = applyArithNoShift<T, V>(op, s, y, r); }
+    if (ok) st(r, out);
+    return ok;
+  }
+  static bool mask(int form, int op, const T* a, const T* b, bool* out) {
+    M r; bool ok = false;
+    if (form == 0) { const V x = ld(a), y = ld(b); ok = op < LAND ? applyCompare<T, M>(op, x, y, r) : applyLogic<T, M>(op, x, y, r); }
+    else if (form == 1) { const V x = ld(a); const T s = b[0]; ok = op < LAND ? applyCompare<T, M>(op, x, s, r) : applyLogic<T, M>(op, x, s, r); }
+    else {
+      const T s = a[0]; const V y = ld(b);
+      if (op < LAND) ok = applyCompare<T, M>(op, s, y, r);
+      else if constexpr (!IsNested<V>::value) ok = applyLogic<T, M>(op, s, y, r);  // no such overload for nested vectors
+    }
+    if (ok) st(r, out);
+    return ok;
+  }
+  static bool asg(int form, int op, T* a, const T* b, T* ret) {
+    V x = ld(a), r; bool ok;
+    if (form == 0) { const V y = ld(b); ok = applyAssign<T>(op, x, y, r); }
+    else { const T s = b[0]; ok = applyAssign<T>(op, x, s, r); }
+    if (ok) { st(x, a); st(r, ret); }
+    return ok;
+  }
+  static bool un(int op, const T* a, T* out) {
+    const V x = ld(a); V r;
+    bool ok = applyUnary<T, V>(op, x, r);
+    if (ok) st(r, out);
+    return ok;
+  }
+  static void lnot(const T* a, bool* out) { const V x = ld(a); M r = !x; st(r, out); }
+  static bool inc(int op, T* a, T* ret) {
+    V x = ld(a), r;
+    bool ok = applyInc<T>(op, x, r);
+    if (ok) { st(x, a); st(r, ret); }
+    return ok;
+  }
+  static void mathSame(int fn, const T* a, T* out) {
+    if constexpr (std::is_floating_point_v<T>) {
+      const V x = ld(a);
+      int i = 0;
+#define X(f) if (fn == i++) { auto r = f(x); st(r, out); return; }
+      DV_MATHFNS_SAME(X)
+#undef X
+    }
+    (void)fn; (void)a; (void)out;
+  }
+  static bool mathRet(int fn, const T* a, long long* out) {
+    if constexpr (std::is_floating_point_v<T> && !IsNested<V>::value) {
+      const V x = ld(a);
+      int i = 0;
+#define X(f) if (fn == i++) { auto r = f(x); st(r, out); return true; }
+      DV_MATHFNS_RET(X)
+#undef X
+    }
+    (void)fn; (void)a; (void)out;
+    return false;
+  }
+  static const KernTab<T>* tab() {
+    static const KernTab<T> t = {n, IsNested<V>::value, &arith, &mask, &asg, &un, &lnot, &inc, &mathSame, &mathRet};
+    return &t;
+  }
+};
+
+template <class T> const KernTab<T>* kernFor(const std::string& shape) {
+  if (shape == "1") return Kern<LoopSIMD<T, 1>>::tab();
+  if (shape == "2") return Kern<LoopSIMD<T, 2>>::tab();
+  if (shape == "4") return Kern<LoopSIMD<T, 4>>::tab();
+  if (shape == "8") return Kern<LoopSIMD<T, 8>>::tab();
+  if constexpr (std::is_same_v<T, double> || std::is_same_v<T, int> || std::is_same_v<T, bool>) {
+    if (shape == "2x2") return Kern<LoopSIMD<LoopSIMD<T, 2>, 2>>::tab();
+    if (shape == "4x2") return Kern<LoopSIMD<LoopSIMD<T, 2>, 4>>::tab();
+    if (shape == "2x4") return Kern<LoopSIMD<LoopSIMD<T, 4>, 2>>::tab();
+  }
+  return nullptr;
+}
+
+// plain lane buffer (std::vector<bool> has no data())
+template <class T> struct Buf {
+  std::size_t n;
+  std::unique_ptr<T[]> p;
+  explicit Buf(std::size_t n_) : n(n_), p(new T[n_]()) {}
+  Buf(const Buf& o) : n(o.n), p(new T[o.n]()) { for (std::size_t k = 0; k < n; ++k) p[k] = o.p[k]; }
+  T& operator[](std::size_t k) { return p[k]; }
+  const T& operator[](std::size_t k) const { return p[k]; }
+  T* data() { return p.get(); }
+  const T* data() const { return p.get(); }
+};
+template <class T> Buf<T> parseLanes(const std::string& tok, std::size_t n) {
+  auto ts = listToks(tok);
+  if (ts.size() != n) throw std::runtime_error("lane count mismatch in " + tok);
+  Buf<T> v(n);
+  for (std::size_t k = 0; k < n; ++k) v[k] = Cod<T>::parse(ts[k]);
+  return v;
+}
+template <class T> std::string showLanes(const T* p, std::size_t n) {
+  std::string s = "[";
+  for (std::size_t k = 0; k < n; ++k) { if (k) s += ","; s += Cod<T>::show(p[k]); }
+  return s + "]";
+}
+// bool lanes are handled through plain arrays (not std::vector<bool>)
+using BoolBuf = Buf<bool>;
+
+template <class R> void laneMismatch(Result& res, std::size_t k, R got, R want, const std::string& what) {
+  if (res.oracle == "ok") res.oracle = "FAIL lane " + std::to_string(k) + " is " + Cod<R>::show(got) + ", " + what + " gives " + Cod<R>::show(want);
+}
+
+// operator kinds bin / asg / un / math for scalar type T
+template <class T>
+Result execOps(const std::vector<std::string>& w) {
+  Result res;
+  const std::string& kind = w.at(0);
+  const KernTab<T>* K = kernFor<T>(w.at(2));
+  if (!K) { res.impl = "bad-op"; res.oracle = "ok trivial"; return res; }
+  const std::size_t n = K->n;
+  if (kind == "bin" || kind == "asg") {
+    const std::string& form = w.at(3);
+    const int f = form == "vv" ? 0 : form == "vs" ? 1 : form == "sv" ? 2 : -1;
+    const int op = opCode(w.at(4));
+    if (f < 0 || op < 0 || (kind == "asg" && (f == 2 || op >= LT))) return noSuchOp();
+    Buf<T> a = parseLanes<T>(f == 2 ? "[" + w.at(5) + "]" : w.at(5), f == 2 ? 1 : n);
+    Buf<T> b = parseLanes<T>(f == 1 ? "[" + w.at(6) + "]" : w.at(6), f == 1 ? 1 : n);
+    auto A = [&](std::size_t k) -> T { return f == 2 ? a[0] : a[k]; };
+    auto B = [&](std::size_t k) -> T { return f == 1 ? b[0] : b[k]; };
+    for (std::size_t k = 0; k < n; ++k) if (!validBin<T>(opNames[op], A(k), B(k))) return invalidInput();
+    const Buf<T> a0 = a;
+    if (kind == "asg") {
+      Buf<T> ret(n);
+      if (!K->asg(f, op, a.data(), b.data(), ret.data())) return noSuchOp();
+      res.impl = showLanes(a.data(), n);
+      for (std::size_t k = 0; k < n; ++k) {
+        T e = a0[k], r{};
+        applyAssign<T>(op, e, B(k), r);
+        if (!Cod<T>::same(a[k], e)) laneMismatch(res, k, a[k], e, "the scalar compound assignment");
+        if (!Cod<T>::same(ret[k], a[k]) && res.oracle == "ok") res.oracle = "FAIL returned value differs from the assigned object in lane " + std::to_string(k);
+      }
+      return res;
+    }
+    if (!isMaskOp(op)) {
+      Buf<T> out(n);
+      if (!K->arith(f, op, a.data(), b.data(), out.data())) return noSuchOp();
+      res.impl = showLanes(out.data(), n);
+      for (std::size_t k = 0; k < n; ++k) {
+        T e{};
+        if (op < SHL) applyArithNoShift<T, T>(op, A(k), B(k), e); else applyShift<T, T>(op, A(k), B(k), e);
+        if (!Cod<T>::same(out[k], e)) laneMismatch(res, k, out[k], e, "the scalar operation");
+      }
+    } else {
+      BoolBuf out(n);
+      if (!K->mask(f, op, a.data(), b.data(), out.data())) return noSuchOp();
+      res.impl = showLanes(out.data(), n);
+      for (std::size_t k = 0; k < n; ++k) {
+        bool e = false;
+        if (op < LAND) applyCompare<T, bool>(op, A(k), B(k), e); else applyLogic<T, bool>(op, A(k), B(k), e);
+        if (out[k] != e) laneMismatch(res, k, out[k], e, "the scalar operation");
+      }
+    }
+    return res;
+  }
+  if (kind == "un") {
+    const int op = unCode(w.at(3));
+    if (op < 0) return noSuchOp();
+    Buf<T> a = parseLanes<T>(w.at(4), n);
+    for (std::size_t k = 0; k < n; ++k) if (!validUn<T>(unNames[op], a[k])) return invalidInput();
+    const Buf<T> a0 = a;
+    if (op == LNOT) {
+      BoolBuf out(n);
+      K->lnot(a.data(), out.data());
+      res.impl = showLanes(out.data(), n);
+      for (std::size_t k = 0; k < n; ++k) { bool e = !a0[k]; if (out[k] != e) laneMismatch(res, k, out[k], e, "the scalar operation"); }
+      return res;
+    }
+    if (op <= BNOT) {
+      Buf<T> out(n);
+      if (!K->un(op, a.data(), out.data())) return noSuchOp();
+      res.impl = showLanes(out.data(), n);
+      for (std::size_t k = 0; k < n; ++k) { T e{}; applyUnary<T, T>(op, a0[k], e); if (!Cod<T>::same(out[k], e)) laneMismatch(res, k, out[k], e, "the scalar operation"); }
+      return res;
+    }
+    Buf<T> ret(n);
+    if (!K->inc(op, a.data(), ret.data())) return noSuchOp();
+    res.impl = showLanes(ret.data(), n) + "|" + showLanes(a.data(), n);
+    for (std::size_t k = 0; k < n; ++k) {
+      T x = a0[k], e{};
+      applyInc<T>(op, x, e);
+      if (!Cod<T>::same(ret[k], e)) laneMismatch(res, k, ret[k], e, "the scalar operation (value)");
+      if (!Cod<T>::same(a[k], x)) laneMismatch(res, k, a[k], x, "the scalar operation (object)");
+    }
+    return res;
+  }
+  if (kind == "math") {
+    if constexpr (!std::is_floating_point_v<T>) return noSuchOp();
+    else {
+      Buf<T> a = parseLanes<T>(w.at(4), n);
+      int fn = indexOf(mathSameNames(), w.at(3));
+      if (fn >= 0) {
+        Buf<T> out(n);
+        K->mathSame(fn, a.data(), out.data());
+        res.impl = showLanes(out.data(), n);
+        for (std::size_t k = 0; k < n; ++k) { T e = scalarMathSame<T>(fn, a[k]); if (!Cod<T>::same(out[k], e)) laneMismatch(res, k, out[k], e, "std::" + w.at(3)); }
+        return res;
+      }
+      fn = indexOf(mathRetNames(), w.at(3));
+      if (fn >= 0) {
+        Buf<long long> out(n);
+        if (!K->mathRet(fn, a.data(), out.data())) return noSuchOp();
+        res.impl = showLanes(out.data(), n);
+        for (std::size_t k = 0; k < n; ++k) { long long e = scalarMathRet<T>(fn, a[k]); if (out[k] != e) laneMismatch(res, k, out[k], e, "std::" + w.at(3)); }
+        return res;
+      }
+      return noSuchOp();
+    }
+  }
+  return noSuchOp();
+}
+
+static Result execOpsT(const std::vector<std::string>& w) {
+  const std::string& T = w.at(1);
+  if (T == "f64") return execOps<double>(w);
+  if (T == "f32") return execOps<float>(w);
+  if (T == "i32") return execOps<int>(w);
+  if (T == "i64") return execOps<long>(w);
+  if (T == "b") return execOps<bool>(w);
+  Result r; r.impl = "bad-op"; r.oracle = "ok trivial"; return r;
+}
 
 // scalar math function by name (used by the generator to write the function table into the op line)
 template <class T> std::string scalarMath(const std::string& fn, T x) {
-#define X(f) if (fn == #f) { auto y = std::f(x); return Cod<std::decay_t<decltype(y)>>::show(y); }
-  DV_MATHFNS(X)
-#undef X
+  int i = indexOf(mathSameNames(), fn);
+  if (i >= 0) return Cod<T>::show(scalarMathSame<T>(i, x));
+  i = indexOf(mathRetNames(), fn);
+  if (i >= 0) return std::to_string(scalarMathRet<T>(i, x));
   return "?";
+}
+static std::vector<std::string> mathNames() {
+  std::vector<std::string> v = mathSameNames();
+  for (auto& s : mathRetNames()) v.push_back(s);
+  return v;
 }
 
 template <class M> bool rawAny(const M& m, bool want) {
@@ -358,7 +537,7 @@ template <class M> bool rawAny(const M& m, bool want) {
 }
 
 // ------------------------------------------------------------------------------------------------
-// everything for one vector type
+// functions of the abstraction layer (and the remaining functions of loop.hh) for one vector type
 // ------------------------------------------------------------------------------------------------
 template <class V> struct Flat;  // the flat LoopSIMD with the same scalar and lane count (for implCast)
 template <class T, std::size_t S, std::size_t A> struct Flat<LoopSIMD<T, S, A>> { using type = LoopSIMD<ScalarOf<T>, S * RawT<T>::n>; };
@@ -379,13 +558,6 @@ Result execVec(const std::vector<std::string>& w) {
 
   if (kind == "bin") {
     const std::string &form = arg(3), &op = arg(4);
-#define DV_BIN(name, OP, CLS) \
-    if (op == name) return binForm<V, CLS>(form, op, arg(5), arg(6), [](const auto& x, const auto& y) -> decltype(x OP y) { return x OP y; });
-    DV_BIN("add", +, 0) DV_BIN("sub", -, 0) DV_BIN("mul", *, 0) DV_BIN("div", /, 0) DV_BIN("mod", %, 0)
-    DV_BIN("band", &, 0) DV_BIN("bor", |, 0) DV_BIN("bxor", ^, 0) DV_BIN("shl", <<, 2) DV_BIN("shr", >>, 2)
-    DV_BIN("lt", <, 0) DV_BIN("gt", >, 0) DV_BIN("le", <=, 0) DV_BIN("ge", >=, 0) DV_BIN("eq", ==, 0) DV_BIN("ne", !=, 0)
-    DV_BIN("land", &&, 1) DV_BIN("lor", ||, 1)
-#undef DV_BIN
     if (op == "max" || op == "min") {
       if (form != "vv") return noSuchOp();
       const bool mx = op == "max";
@@ -412,25 +584,8 @@ Result execVec(const std::vector<std::string>& w) {
     }
     return noSuchOp();
   }
-  if (kind == "asg") {
-    const std::string &form = arg(3), &op = arg(4);
-#define DV_ASG(name, OP) \
-    if (op == name) return asgForm<V>(form, op, arg(5), arg(6), [](auto& x, const auto& y) -> decltype(x OP y) { return x OP y; });
-    DV_ASG("add", +=) DV_ASG("sub", -=) DV_ASG("mul", *=) DV_ASG("div", /=) DV_ASG("mod", %=)
-    DV_ASG("band", &=) DV_ASG("bor", |=) DV_ASG("bxor", ^=) DV_ASG("shl", <<=) DV_ASG("shr", >>=)
-#undef DV_ASG
-    return noSuchOp();
-  }
   if (kind == "un") {
     const std::string& op = arg(3);
-    if (op == "pos") return unForm<V>(op, arg(4), [](const auto& x) -> decltype(+x) { return +x; });
-    if (op == "neg") return unForm<V>(op, arg(4), [](const auto& x) -> decltype(-x) { return -x; });
-    if (op == "bnot") return unForm<V>(op, arg(4), [](const auto& x) -> decltype(~x) { return ~x; });
-    if (op == "lnot") return unForm<V>(op, arg(4), [](const auto& x) -> decltype(!x) { return !x; });
-    if (op == "preinc") return incForm<V>(op, arg(4), [](auto& x) -> decltype(++x) { return ++x; });
-    if (op == "predec") return incForm<V>(op, arg(4), [](auto& x) -> decltype(--x) { return --x; });
-    if (op == "postinc") return incForm<V>(op, arg(4), [](auto& x) -> decltype(x++) { return x++; });
-    if (op == "postdec") return incForm<V>(op, arg(4), [](auto& x) -> decltype(x--) { return x--; });
     if (op == "mask") {
       const V a = parseVec<V>(arg(4));
       M r = Simd::mask(a);
@@ -454,19 +609,6 @@ Result execVec(const std::vector<std::string>& w) {
       }
     }
     return noSuchOp();
-  }
-  if (kind == "math") {
-    if constexpr (!std::is_floating_point_v<T>) return noSuchOp();
-    else {
-      const std::string& fn = arg(3);
-#define X(f) if (fn == #f) return mathForm<V>(arg(4), [](const V& x) { return f(x); }, [](T x) { return std::f(x); });
-      DV_MATHFNS_SAME(X)
-      if constexpr (!IsNested<V>::value) {
-        DV_MATHFNS_RET(X)
-      }
-#undef X
-      return noSuchOp();
-    }
   }
   if (kind == "lane") {
     std::size_t l = std::stoul(arg(3));
@@ -517,8 +659,8 @@ Result execVec(const std::vector<std::string>& w) {
       const V m = parseVec<V>(arg(4));
       bool r, e;
       if (what == "anyTrue") { r = Simd::anyTrue(m); e = rawAny(m, true); }
-      else if (what == "allTrue") { r = Simd::allTrue(m); e = !rawAny(m, 0); }
-      else if (what == "anyFalse") { r = Simd::anyFalse(m); e = rawAny(m, 0); }
+      else if (what == "allTrue") { r = Simd::allTrue(m); e = !rawAny(m, false); }
+      else if (what == "anyFalse") { r = Simd::anyFalse(m); e = rawAny(m, false); }
       else if (what == "allFalse") { r = Simd::allFalse(m); e = !rawAny(m, true); }
       else return noSuchOp();
       res.impl = Cod<bool>::show(r);
@@ -794,7 +936,10 @@ static Result exec(const std::string& line) {
   stat("shape_" + w[2]);
   if (kind == "bin" || kind == "asg") stat("op_" + kind + "_" + w.at(3) + "_" + w.at(4));
   else if (kind == "un" || kind == "math") stat("op_" + kind + "_" + w.at(3));
-  Result r = it->second(w);
+  const bool special = (kind == "bin" && (w.at(4) == "max" || w.at(4) == "min" || w.at(4) == "maskor" || w.at(4) == "maskand"))
+                       || (kind == "un" && (w.at(3) == "mask" || w.at(3) == "isNaN" || w.at(3) == "isInf" || w.at(3) == "isFinite"));
+  const bool opKind = kind == "bin" || kind == "asg" || kind == "un" || kind == "math";
+  Result r = (opKind && !special) ? execOpsT(w) : it->second(w);
   if (r.impl == "invalid") stat("skipped_invalid_int_operands");
   if (r.impl == "ERR:NoSuchOp") stat("skipped_no_such_op");
   return r;
@@ -1056,7 +1201,7 @@ static std::string gen(Rng& rng, long, const Args& a) {
     stats() = saved;  // the trial execution is not counted
     if (r.impl != "invalid" && r.impl != "ERR:NoSuchOp" && r.impl != "bad-op") return line;
   }
-  return line;
+  return "lanes f64 4";
 }
 
 int main(int argc, char** argv) {
